@@ -311,6 +311,7 @@ class Usage(object):
 
 # --------------------------------------------------------------------------- mibcopy
 
+DST_SPELLINGS = ['out', './out', 'out/', 'out//', '../%s/out', 'in/../out']
 REVS = {'none': None, 'old': '201001010000Z', 'mid': '201501010000Z', 'new': '202001010000Z'}
 
 
@@ -351,6 +352,16 @@ class MibCopy(object):
         if tier == 'thorough' or n == 2:
             for perm in itertools.permutations(range(n)):
                 yield {'revs': block['revs'], 'pre': block['pre'], 'perm': list(perm), 'mode': 'files+other'}
+        # the destination directory spelled in every usual way (relative to the working directory)
+        if block['pre'] is not None:
+            for spell in DST_SPELLINGS:
+                yield {'revs': block['revs'], 'pre': block['pre'], 'perm': list(range(n)), 'mode': 'files', 'dst': spell}
+        # the --mib-source library (used to resolve imports) itself holds a copy of the module, newer or older,
+        # and one source file named exactly like the module is not a MIB at all
+        for lib in ('old', 'new'):
+            for junk in ((0, 1) if (tier == 'thorough' or n == 2) else (0,)):
+                yield {'revs': block['revs'], 'pre': block['pre'], 'perm': list(range(n)), 'mode': 'files', 'lib': lib,
+                       'junk': junk}
 
     def run_case(self, case):
         root = scratch()
@@ -379,6 +390,16 @@ class MibCopy(object):
                     f.write(text)
                 files.append(fn)
                 contents['TWO-MIB'] = [(rev_key('mid'), text)]
+            if case.get('lib'):
+                with open(os.path.join(base, 'ONE-MIB'), 'w') as f:
+                    f.write(copy_text('ONE-MIB', REVS[case['lib']], 'library-%s' % case['lib']))
+            if case.get('junk'):
+                jd = os.path.join(root, 'junk')
+                os.mkdir(jd)
+                fn = os.path.join(jd, 'ONE-MIB')
+                with open(fn, 'w') as f:
+                    f.write('this is not a MIB module\n')
+                files.insert(0, fn)
             if case['pre'] is not None:
                 os.mkdir(dst)
                 text = copy_text('ONE-MIB', REVS[case['pre']], 'pre-existing-%s' % case['pre'])
@@ -388,12 +409,22 @@ class MibCopy(object):
             if case['mode'] == 'dir':
                 args = [srcd]
             else:
-                order = [files[i] for i in case['perm']] + files[len(case['perm']):]
+                nj = 1 if case.get('junk') else 0
+                order = files[:nj] + [files[nj + i] for i in case['perm']] + files[nj + len(case['perm']):]
                 args = order
-            argv = ['--mib-source=file://' + base] + args + [dst]
+            dstarg = dst
+            if case.get('dst'):
+                dstarg = case['dst'].replace('%s', os.path.basename(root))
+            argv = ['--mib-source=file://' + base] + args + [dstarg]
             code, stderr = run_script('mibcopy.py', argv, root)
             vs = []
             feat = 'revs=%s|pre=%s|%s' % ('+'.join(sorted(case['revs'])), case['pre'], case['mode'])
+            if case.get('dst'):
+                feat += '|dst=' + case['dst']
+            if case.get('lib'):
+                feat += '|library-holds-%s-copy' % case['lib'] + ('|junk-source' if case.get('junk') else '')
+            if case.get('junk') and not re.search(r'failed: 1\b', stderr):
+                vs.append(('C20|mibcopy|unreadable-source-not-counted-failed|%s' % feat, 'argv %r\n%s' % (argv, stderr[-600:])))
             if code != 0:
                 vs.append(('C20|mibcopy|exit-%s|%s' % (code, feat), 'argv %r\n%s' % (argv, stderr[-600:])))
             for mod, copies in sorted(contents.items()):
